@@ -302,6 +302,7 @@ type typeSwitchStmt struct {
 	x     target.Expr
 	xSrc  ast.Node
 	xType *types.Interface
+	xTyp  types.Type // type of x as declared (xType is its underlying interface)
 	old   codeBlockCtx
 }
 
@@ -319,7 +320,7 @@ func (p *typeSwitchStmt) TypeAssertThen(cb *CodeBuilder) {
 	if !ok {
 		panic("TODO: can't type assert on non interface expr")
 	}
-	p.x, p.xSrc, p.xType = x.Val, x.Src, xType
+	p.x, p.xSrc, p.xType, p.xTyp = x.Val, x.Src, xType, x.Type
 }
 
 func (p *typeSwitchStmt) TypeCase(cb *CodeBuilder, src ...ast.Node) {
@@ -367,8 +368,8 @@ func (p *typeCaseStmt) Then(cb *CodeBuilder, src ...ast.Node) {
 		cb.stk.PopN(n)
 	}
 	if pss.name != "" {
-		if n != 1 { // default, or case with multi expr
-			typ = pss.xType
+		if n != 1 || typ == types.Typ[types.UntypedNil] { // default, case nil, or case with multi expr
+			typ = pss.xTyp
 		}
 		name := types.NewParam(token.NoPos, cb.pkg.Types, pss.name, typ)
 		cb.pkg.useName(pss.name)
